@@ -233,8 +233,24 @@ def rule_roman(ctx):
                 t = _tuple_consts(n)
                 if t and all(isinstance(x, int) for x in t) and len(t) == 7:
                     vals = t
+            # ... or kept in a module-level constant the function reads
+            if isinstance(n, ast.Name) and isinstance(n.ctx, ast.Load):
+                mv = f.module.assigns.get(n.id) or []
+                if len(mv) == 1:
+                    t = _tuple_consts(mv[0])
+                    if vals is None and t and len(t) == 7 and all(
+                            isinstance(x, int) for x in t):
+                        vals = t
+                    if lets is None and isinstance(
+                            mv[0], ast.Constant) and isinstance(
+                            mv[0].value, str) and len(mv[0].value) == 7 and \
+                            mv[0].value.isalpha():
+                        lets = mv[0].value
         if vals == want_vals and lets == want_let:
             rr.ok('%s uses %s / %r' % (fn, vals, lets), MATH)
+        elif vals is None or lets is None:
+            raise AnalysisError('C20.roman: the numeral tables of %s were '
+                                'not found' % fn)
         else:
             rr.fail(key_of(f, 'numeral table'),
                     '%s uses numeral table %r / %r; the standard numerals are '
@@ -267,6 +283,13 @@ def _fold(ctx, mod, e, depth=0):
         vals = mod.assigns.get(e.id) or []
         if len(vals) == 1:
             return _fold(ctx, mod, vals[0], depth + 1)
+        imp = mod.imports.get(e.id)
+        if not vals and imp and imp[0] == 'obj':
+            # a constant imported from a sibling module
+            m2 = ctx.project.get_module(imp[1])
+            if m2 is not None and m2 is not mod:
+                return _fold(ctx, m2, ast.Name(id=imp[2], ctx=ast.Load()),
+                             depth + 1)
         return None
     if isinstance(e, ast.Attribute):
         r = ctx.project.resolve_expr(mod, e)
@@ -347,7 +370,7 @@ def rule_serial(ctx):
                 operands = [n.left] + list(n.comparators)
                 for i, opnd in enumerate(operands):
                     folded = _fold(ctx, mod, opnd) if isinstance(
-                        opnd, (ast.Constant, ast.Name)) else None
+                        opnd, (ast.Constant, ast.Name, ast.BinOp)) else None
                     if isinstance(folded, int) and not isinstance(
                             folded, bool) and abs(
                             folded - lim['max_serial']) <= 5:
@@ -393,8 +416,10 @@ def rule_serial(ctx):
                                                 lim['max_serial'], want),
                                     file=mod.rel, function=f.qualname,
                                     line=n.lineno)
-    if n_lit < 4:
-        raise AnalysisError('only %d date-serial bound literals found' % n_lit)
+    if n_lit < 1:
+        # (four on the pinned tree; sharing one bound test between the date
+        # functions legitimately lowers the count)
+        raise AnalysisError('no date-serial bound found')
     # leap pivot
     xd = p.func(DATE, 'xdate')
     i2d = p.func(DATE, '_int2date')
@@ -606,5 +631,9 @@ def rule_time(ctx):
 
 def run(ctx):
     S = ctx.soft
+    from .common import rule_memo
+    regs = [r for r in ctx.registry.functions.values()
+            if r.module.rel in (ENG, DATE, MATH)]
     return [S(rule_mask, ctx), S(rule_roman, ctx), S(rule_serial, ctx),
-            S(rule_weekday, ctx), S(rule_time, ctx)]
+            S(rule_weekday, ctx), S(rule_time, ctx),
+            S(rule_memo, ctx, 'C20', 'C20.memo', regs)]
